@@ -20,6 +20,14 @@ Local Open Scope string_scope.
 Local Open Scope N_scope.
 """
 DBNAMES = ["alpha", "Beta", "gamma", "ALPHA", "beta", "nosuch"]
+# names that are paths or too long for a directory name: must be refused by CREATE DATABASE and USE and
+# leave no trace in SHOW DATABASES (until /repo a710589 / 71be150: "a/b" was listed as "a", "../esc" left
+# the data directory, a 300-character name made CREATE DATABASE panic); written as delimited identifiers
+ODDNAMES = ["a/b", "../esc", ".", "..", "alpha/../beta", "alpha/x", "L" * 300]
+
+
+def sql_name(n):
+    return n if n.isalnum() and len(n) < 100 else '"%s"' % n
 
 
 def gen_case(rng, tier):
@@ -31,7 +39,10 @@ def gen_case(rng, tier):
     evs.append(("sql_stmt", {"k": "insert", "table": "t", "cols": [], "rows": [[1]]}))   # before any USE: error
     while len(evs) < n:
         r = rng.random()
-        if r < 0.12 or not created:
+        if created and r < 0.03:
+            evs.append((rng.choice(["createdb", "use"]), rng.choice(ODDNAMES)))
+            evs.append(("show",))
+        elif r < 0.12 or not created:
             name = rng.choice(DBNAMES[:5])
             evs.append(("createdb", name))
             if name.lower() not in created:
@@ -77,9 +88,9 @@ def go_events(evs):
         if e[0] == "sql_stmt":
             out.append({"t": "sql", "q": hist.sql_stmt(e[1])})
         elif e[0] == "createdb":
-            out.append({"t": "sql", "q": "CREATE DATABASE %s" % e[1]})
+            out.append({"t": "sql", "q": "CREATE DATABASE %s" % sql_name(e[1])})
         elif e[0] == "use":
-            out.append({"t": "sql", "q": "USE %s" % e[1]})
+            out.append({"t": "sql", "q": "USE %s" % sql_name(e[1])})
         elif e[0] == "show":
             out.append({"t": "sql", "q": "SHOW DATABASES"})
         elif e[0] == "tick":
